@@ -41,13 +41,18 @@ def racy (s : Shard) (ntypes : Nat) : Bool :=
 
 def showRead (s : Shard) (ntypes : Nat) : String :=
   if racy s ntypes then "racy" else
+  if s.tainted then "stale" else
   s!"keys={joinNat (sortNat (visibleKeys s))} count={countAllTypes s ntypes}"
 
-def showLs (s : Shard) : String :=
+def showLs (s : Shard) (ntypes : Nat) : String :=
   let ids := sortNat (s.wal.map (·.1))
   let wal := ids.map fun i => s!"{i}:{((s.wal.filter (·.1 == i)).flatMap (·.2)).length}"
   let segs := sortNat ((s.segs.map (·.1)).eraseDups)
-  s!"wal={if wal.isEmpty then "-" else ",".intercalate wal} segs={joinNat segs}"
+  -- with several event types the numeric ids of compaction outputs depend on hash-map
+  -- iteration order in the planner: only the number of directories per level is compared
+  let shown := if ntypes ≤ 1 then joinNat segs
+    else joinNat (((List.range 6).map fun lvl => (segs.filter (· / levelSpan == lvl)).length))
+  s!"wal={if wal.isEmpty then "-" else ",".intercalate wal} segs={shown}"
 
 def parseKV (key : String) (t : String) : Option Nat :=
   match t.splitOn "=" with
@@ -68,7 +73,7 @@ def answerWith (compactFn : Shard → Shard) (line : String) : String :=
           match t with
           | .op o => (step s o, obs)
           | .read => (s, showRead s nt :: obs)
-          | .ls => (s, showLs s :: obs)
+          | .ls => (s, showLs s nt :: obs)
           | .compact => (compactFn (drainAll s), obs)) (Shard.init cap km, [])
         " ; ".intercalate obs.reverse
       | _, _, _, _ => "bad-op"
